@@ -18,7 +18,8 @@ Rq(m, p, o, rm, rh) == [op |-> "req", method |-> m, path |-> p,
 ReqsC == {Rq(m, p, o, rm, rh) : m \in {"GET", "HEAD", "POST", "OPTIONS", "PUT", ""}, p \in {"/a", "/b", "/missing", "*"},
                                 o \in {"", O1, O2, "https://evil.example", "HTTPS://O1.EXAMPLE"},
                                 rm \in {"", "POST", "DELETE", "post"},
-                                rh \in {"-", "", "Content-Type", "content-type", "X-Evil", "Content-Type , x-a", " X-A,content-TYPE ", "X-A,,Content-Type"}}
+                                rh \in {"-", "", "Content-Type", "content-type", "X-Evil", "Content-Type , x-a", " X-A,content-TYPE ", "X-A,,Content-Type",
+                                       "Content", "ontent-Typ", "X-", "content-type,x-evil"}}
 BaseOps == <<[op |-> "handle", pat |-> "/a", methods |-> <<"GET", "POST">>, mws |-> <<>>, chain |-> <<>>, res |-> FALSE],
              [op |-> "handle", pat |-> "/b", methods |-> <<"DELETE">>, mws |-> <<>>, chain |-> <<>>, res |-> FALSE]>>
 
@@ -28,7 +29,17 @@ Spec == Init /\ [][Next]_cfg
 
 CaseOf == [fam |-> "router", battery |-> "none", ops |-> BaseOps, reqs |-> ReqsC,
            cfg |-> [name |-> "r", trace |-> FALSE, lock |-> FALSE, icpt |-> <<>>, domain |-> "", cors |-> cfg]]
-Emit == PrintT("CASE " \o ToJson(CaseOf))
+\* a second case per configuration: preflights INTERLEAVED with registrations / removals on the same pattern
+\* (the Allow-Methods of a preflight must follow the route's current method set)
+Hd(p, ms) == [op |-> "handle", pat |-> p, methods |-> ms, mws |-> <<>>, chain |-> <<>>, res |-> FALSE]
+RmO(p, ms) == [op |-> "remove", pat |-> p, methods |-> ms, mws |-> <<>>, chain |-> <<>>, res |-> FALSE]
+Pre(p, rm) == Rq("OPTIONS", p, O1, rm, "Content-Type")
+DynOps == BaseOps \o <<Pre("/a", "POST"), Pre("/a", "DELETE"), Hd("/a", <<"DELETE">>), Pre("/a", "DELETE"), Pre("/a", "POST"), Rq("DELETE", "/a", O1, "", "-"),
+                        RmO("/a", <<"POST">>), Pre("/a", "POST"), Pre("/a", "DELETE"), Pre("/b", "DELETE"), Hd("/b", <<"PUT">>), Pre("/b", "PUT"),
+                        RmO("/b", <<>>), Pre("/b", "PUT"), Hd("/b", <<"GET">>), Pre("/b", "GET"), Pre("/b", "HEAD"), Pre("/b", "DELETE")>>
+DynCase == [fam |-> "router", battery |-> "none", ops |-> DynOps, reqs |-> {},
+            cfg |-> [name |-> "r", trace |-> FALSE, lock |-> FALSE, icpt |-> <<>>, domain |-> "", cors |-> cfg]]
+Emit == PrintT("CASE " \o ToJson(CaseOf)) /\ PrintT("CASE " \o ToJson(DynCase))
 
 \* design-level sanity: an ideal reply built from the decision table satisfies both properties,
 \* and C12's grant implies C11's permission (the two statements are consistent)
